@@ -227,6 +227,20 @@ func (c *Ctx) summaries(rule string) *core.Summaries {
 		return c.sum
 	}
 	R := c.R
+	// The summaries are obligations of the properties that own the reader (C03, C04, C10). Other properties
+	// use them when they verify and go without them otherwise (their own obligations then decide).
+	owner := strings.HasPrefix(rule, "C03") || strings.HasPrefix(rule, "C04") || strings.HasPrefix(rule, "C10")
+	if !owner {
+		saved := R.Obls
+		defer func() {
+			for _, o := range R.Obls[len(saved):] {
+				if o.Status != "ok" {
+					R.Note("summary not available in this run (%s): %s", o.Key, o.Detail)
+				}
+			}
+			R.Obls = saved
+		}()
+	}
 	s := &core.Summaries{}
 	mods := c.modSets()
 	reset := c.P.Method("buffer", "Reader", "reset")
